@@ -11,6 +11,7 @@ import (
 	"math/rand"
 	"os"
 	"sort"
+	"strings"
 	"sync"
 
 	"github.com/tdewolff/parse/v2"
@@ -303,6 +304,10 @@ func c20Build() {
 				return "`" + gen.Pick(r, []string{"alpha alpha", "first", "", "a\nb", "q\"q", "x\\`y", "omega omega omega", "é日"}) + "`"
 			}
 			op.Data = []byte(gen.Pick(r, []string{tl(), "[" + tl() + ", " + tl() + "]", "{\"k\": " + tl() + ", \"l\": [1, " + tl() + "]}"}))
+		} else if x == 7 && r.Intn(2) == 0 {
+			// calls of a function named async (a parser path of its own), balanced and beyond the nesting limit
+			n := gen.Pick(r, []int{1, 2, 3, 40, 998, 1001})
+			op.Data = []byte("x = " + strings.Repeat("async(", n) + "y" + strings.Repeat(")", n) + "; async(a, async(b))")
 		} else if x < 3 {
 			op.Data = c20Text(r, "json") // JSON-looking sources reach AST.JSON
 		} else {
